@@ -66,6 +66,10 @@ pub fn w_retain_ne(g: &mut Vec<Node>, j: usize, path: &u64)
         forall|k: int| 0 <= k < old(g)@.len() && k != j ==> final(g)@[k] == old(g)@[k],
 { g[j].depends_on.inner.retain(|p| p != path) }
 
+/// R5: `NormalizedPathBuf::new(p.to_path_buf())` on a path that is already a NormalizedPathBuf
+// @trusted: normalising a normalised path gives the same path (idempotence: proved for cheap_canonicalize_path in C31, bounded for normalize_path)
+#[verifier::external_body]
+pub fn w_renormalize(p: &u64) -> (r: u64) ensures r == *p { *p }
 /// representation invariant: the path index and the node vector agree
 spec fn wf(m: ModuleGraph) -> bool {
     &&& forall|p: u64| #[trigger] m.index@.contains_key(p) ==> m.index@[p] < m.graph@.len() && m.graph@[m.index@[p] as int].id == p
